@@ -423,11 +423,47 @@ def scope(ctx):
             msg='accept_StatementListNode does not evaluate node.children in order')
     # symbol table: a variable lives in the block that first assigns it, and is visible in inner blocks
     ins = repo.func('bridgepoint.interpret:SymbolTable.install_symbol')
-    ok = any(isinstance(n, ast.For) and pm.match('self.scope_head', n.iter) is not None for n in ast.walk(ins)) and \
-        pm.contains('self.scope_head[-1]', ins)
-    r.check(ok, 'install_symbol rebinds an existing variable in its own block, else declares it in the innermost block', ins,
-            construct='bridgepoint.interpret:SymbolTable.install_symbol', key='install',
-            msg='install_symbol no longer searches the enclosing blocks before declaring in the innermost one')
+    NAME, HANDLE = param_names(ins)[:2]
+
+    def blocks(e, s, tr):
+        return ['outer', 'inner']
+
+    def has(e, s, tr):
+        b = e['_B']
+        if isinstance(b, ast.Name) and s.get('env', {}).get(b.id) in ('outer', 'inner'):
+            return s['where'] == s['env'][b.id]
+        return None
+
+    def store(e, s, tr):
+        b = e['_B']
+        if isinstance(b, ast.Name) and s.get('env', {}).get(b.id) in ('outer', 'inner'):
+            tr.append(('store', s['env'][b.id]))
+            return True
+        if pm.match('self.scope_head[-1]', b) is not None:
+            tr.append(('store', 'inner'))
+            return True
+        if pm.match('self.scope_head[0]', b) is not None:
+            tr.append(('store', 'outer'))
+            return True
+        return False
+
+    def rebind_last(e, s, tr):
+        if pm.match('self.scope_head[-1]', e['_V']) is not None:
+            s.setdefault('env', {})[e['_N'].id] = 'inner'
+            return True
+        return False
+    it = absint.Interp(ins, [('%s in _B' % NAME, has), ('%s not in _B' % NAME, lambda e, s, tr: (None if has(e, s, tr) is None else not has(e, s, tr)))],
+                       [('_B[%s] = %s' % (NAME, HANDLE), store), ('_N = _V', rebind_last)],
+                       iters=[('self.scope_head', blocks)])
+    for where in ('outer', 'inner', None):
+        out, tr = it.run({'where': where})
+        stores = [t[1] for t in tr if t[0] == 'store']
+        want = [where or 'inner']
+        r.check(stores == want, 'install_symbol(variable %s) binds it in the %s block' % (
+            'declared in the %s block' % where if where else 'not declared yet', want[0]), ins,
+            construct='bridgepoint.interpret:SymbolTable.install_symbol', key='install %s' % where,
+            msg='install_symbol for a variable %s writes to %s; it must rebind an existing variable in its own block, else declare it in '
+                'the innermost block' % ('declared in the %s block' % where if where else 'not declared yet', stores))
 
 
 def select(ctx):
